@@ -177,6 +177,7 @@ pub fn plan(p: u32, tier: &str) -> Vec<Run> {
             add(alone4(), families::slots_each_alone(4));
             add(split("split-O", true), families::split_outputs(Kind::O, false));
             add(split("split-E", true), families::split_outputs(Kind::E, false));
+            add(split("merge", false), families::merge_outputs());
             add(late("latepair", true), families::with_declaration_variants(families::late_pair()));
             add(late("bigshapes", true), families::with_declaration_variants(families::big_shapes()));
             add(late("ephtrees", true), families::with_declaration_variants(families::eph_trees()));
@@ -294,6 +295,7 @@ pub fn plan(p: u32, tier: &str) -> Vec<Run> {
             add(alone4(), families::slots_each_alone(4));
             add(split("split-O", true), families::split_outputs(Kind::O, false));
             add(split("split-E", true), families::split_outputs(Kind::E, false));
+            add(split("merge", false), families::merge_outputs());
             add(late("late2x", true), families::late_gadget(2, true));
             add(late("latepair", true), families::with_declaration_variants(families::late_pair()));
             add(late("bigshapes", true), families::with_declaration_variants(families::big_shapes()));
@@ -445,6 +447,7 @@ pub fn plan(p: u32, tier: &str) -> Vec<Run> {
             add(ea, families::eph_chains_below_always());
             add(split("split-O", true), families::split_outputs(Kind::O, false));
             add(split("split-E", true), families::split_outputs(Kind::E, false));
+            add(split("merge", false), families::merge_outputs());
             // a job id re-declared with another kind between evaluations (robustness only: a kind change is a
             // change of behaviour the engine is not told about, so the value-based oracles do not apply)
             add(s("kindswap2-D3", 3, m), families::slots_kindswap(2));
@@ -589,6 +592,11 @@ pub fn plan(p: u32, tier: &str) -> Vec<Run> {
             let mut l2n = noise("late2x-noise", 2, false, false);
             l2n.faults = vec![false, true];
             add(l2n, families::late_gadget(2, true));
+            // a rename that changes one output only, a shared Ephemeral that fails late, a shielded consumer
+            let mut sr = split("split-rename+follow", true);
+            sr.depth = 2;
+            sr.faults = vec![false, true];
+            add(sr, families::split_rename());
             if p == 9 {
                 // 4 slots with history: build, one edit with every fault, resume (an Ephemeral with an Always
                 // consumer is required at once on the resume, before its other consumers are looked at)
@@ -680,6 +688,7 @@ pub fn plan(p: u32, tier: &str) -> Vec<Run> {
             add(alone4(), families::slots_each_alone(4));
             add(split("split-O", true), families::split_outputs(Kind::O, false));
             add(split("split-E", true), families::split_outputs(Kind::E, false));
+            add(split("merge", false), families::merge_outputs());
             add(late("late2x+removals", true), families::with_slot_removals(families::late_gadget_full(2, true, true, None, false)));
             add(deep3("S3D4-ff", 4, vec![false; 4]), families::slots(3));
             add(deep3("S3D3-f010", 3, vec![false, true, false]), families::slots(3));
@@ -718,6 +727,7 @@ pub fn plan(p: u32, tier: &str) -> Vec<Run> {
             add(alone4(), families::slots_each_alone(4));
             add(split("split-O", true), families::split_outputs(Kind::O, false));
             add(split("split-E", true), families::split_outputs(Kind::E, false));
+            add(split("merge", false), families::merge_outputs());
             add(noise("S3D2-noise+follow", 2, true, false), families::slots(3));
             let mut mono = noise("S3D2-mono+follow", 2, true, false);
             mono.cmp = Cmp::Mono;
@@ -860,6 +870,7 @@ pub fn plan(p: u32, tier: &str) -> Vec<Run> {
             add(noise("S3D2-noise-twin+follow", 2, true, true), families::slots(3));
             add(split("split-O", true), families::split_outputs(Kind::O, false));
             add(split("split-E", true), families::split_outputs(Kind::E, false));
+            add(split("merge", false), families::merge_outputs());
             // renamed multi-output upstreams whose records differ in the timestamp only
             let mut rn = rename("rename-prod-noise-twin", Conv::Parts, Cmp::Prod);
             rn.noise = true;
@@ -1344,6 +1355,8 @@ pub fn cmd_run(args: &[String]) -> i32 {
         "unread3" => families::slots_unread_edge(3),
         "volatile3" => families::slots_volatile(3),
         "volatile4" => families::slots_volatile(4),
+        "splitrename" => families::split_rename(),
+        "merge" => families::merge_outputs(),
         "splitO" => families::split_outputs(Kind::O, false),
         "splitE" => families::split_outputs(Kind::E, false),
         "splitEv" => families::split_outputs(Kind::E, true),
